@@ -241,3 +241,42 @@ func (e *Engine) globalNamed(pkg, name string) *ssa.Global {
 	}
 	return nil
 }
+
+// ---- net/http request helpers, context, time
+
+// copyObject copies every field of the struct object src into a fresh object (shallow copy).
+func (x *Exec) copyObject(fr *Frame, st *State, src Term, t types.Type) Term {
+	stt, skey := structOf(t)
+	dst := x.newRef(fr)
+	if stt == nil {
+		return dst
+	}
+	x.storeStruct(st, dst, stt, skey, x.loadStruct(st, src, stt, skey))
+	return dst
+}
+
+func init() {
+	regModel("(*net/http.Request).WithContext", func(x *Exec, fr *Frame, st *State, a []Value, pos token.Pos, rt types.Type) (Value, bool) {
+		// a shallow copy of the request with a different context
+		r := tOf(a[0])
+		x.oblige(fr, st, "nil", "request.WithContext", "WithContext on nil request", pos, Neq(r, IntLit(0)), nil)
+		pt, ok := rt.(*types.Pointer)
+		if !ok {
+			return nil, false
+		}
+		return VTerm{x.copyObject(fr, st, r, pt.Elem())}, true
+	})
+	regModel("(*net/http.Request).Context", func(x *Exec, fr *Frame, st *State, a []Value, pos token.Pos, rt types.Type) (Value, bool) {
+		c := x.fresh(rt, "ctx").(VIface)
+		x.vc.Assert(Gt(c.Tag, IntLit(0)))
+		return c, true
+	})
+	regModel("context.WithCancel", func(x *Exec, fr *Frame, st *State, a []Value, pos token.Pos, rt types.Type) (Value, bool) {
+		tp := rt.(*types.Tuple)
+		c := x.fresh(tp.At(0).Type(), "ctx").(VIface)
+		x.vc.Assert(Gt(c.Tag, IntLit(0)))
+		cancel := x.vc.Fresh("cancel", SInt)
+		x.vc.Assert(Gt(cancel, IntLit(0)))
+		return VStruct{F: []Value{c, VFunc{T: cancel}}}, true
+	})
+}
